@@ -91,6 +91,15 @@ func (inj *injector) chainFor(id crypto.Hash) *injChain {
 		return ch
 	}
 	ref := inj.c.Nodes[0]
+	for _, n := range inj.c.Nodes[:inj.n] {
+		if n.Alive {
+			ref = n
+			break
+		}
+	}
+	if !ref.Alive {
+		return nil
+	}
 	head, err := ref.Store.ReadRound(id)
 	if err != nil || head == nil {
 		return nil
